@@ -255,6 +255,72 @@ def check_value_forwarding(ctx: Ctx, rule: str, caller: Func, val, callee: Func,
         )
 
 
+def check_validate_scheme(ctx: Ctx, rule: str):
+    """validate_scheme returns the requested schemes one for one, in the order given (the order of the scheme
+    functions in the written file is the order of the request)."""
+    from sa import av as _av
+
+    f = ctx.sm.func("cli/utils.py", "validate_scheme", required=False)
+    if f is None:
+        return
+    v = util.value_of(ctx, f)
+    key = f.key("order")
+    p0 = f.params[0]
+    inner = _av._unwrap_seq(v)
+    if _av.has_unk(v):
+        ctx.undecided(rule, key, "what validate_scheme returns is not understood", f.where())
+        return
+    reorder = [c for c in _av.find_all(v, "call") if c[1] in ("sorted", "set", "frozenset", "reversed", "dict.fromkeys")]
+    if reorder:
+        ctx.fail(rule, key, f"validate_scheme returns `{_av.show(v)[:100]}`: the requested schemes are re-ordered or de-duplicated, so the scheme functions are written in another order than requested", f.where())
+        return
+    if inner[0] == "comp" and _av._unwrap_seq(inner[2]) == ("sym", p0):
+        bv = ("bv", inner[1])
+        one = ("call", "Scheme", (bv,), ())
+        items = inner[3]
+        conds = [it[1] for it in items if it[0] == "when"]
+        vals = [it[2] if it[0] == "when" else it for it in items]
+        per_element = (len(items) == 1 and not conds) or (len(items) == 2 and len(conds) == 2 and conds[0] == _av.mk_not(conds[1]))
+        okv = all(x in (one, bv) or (x[0] == "if" and x[2] in (one, bv) and x[3] in (one, bv)) for x in vals)
+        ctx.check(per_element and okv and not inner[4], rule, key, "one Scheme per requested entry, in the order given", f"validate_scheme returns `{_av.show(v)[:110]}`: not exactly one scheme per requested entry in the order given" + (" (entries are filtered)" if inner[4] else ""), f.where())
+    else:
+        ctx.undecided(rule, key, f"validate_scheme returns `{_av.show(v)[:100]}`; whether that is the request in its order is not decided", f.where())
+
+
+def check_output_path(ctx: Ctx, rule: str):
+    """gotran2py.main / gotran2c.main: the file written is the given output name itself (with the suffix), or the
+    model's own path when none is given - read from the receiver of the write_text call."""
+    from sa import av as _av
+
+    seen = {}
+    for short in ("cli/gotran2py.py", "cli/gotran2c.py"):
+        main = ctx.sm.func(short, "main")
+        A = util.AV(ctx)
+        n0 = len(A.call_log)
+        A.returned(main)
+        wts = [v for _f, _n, v in A.call_log[n0:] if v[0] == "mcall" and v[2] == "write_text"]
+        key = main.key("output-path")
+        if not wts:
+            ctx.undecided(rule, key, f"{short}::main: the write_text call is not found in what the function does", main.where())
+            continue
+        target = wts[-1][1]
+        seen[short] = target
+        fn, on = ("sym", "fname"), ("sym", "outname")
+        base = _av.mk_if(("cmp", "is", on, _av.NONE), fn, ("call", "pathlib.Path", (on,), ()))
+        wants = [("mcall", base, "with_suffix", (), (("suffix", ("sym", "suffix")),)), ("mcall", base, "with_suffix", (("sym", "suffix"),), ())]
+        if target in wants:
+            ctx.ok(rule, key, "writes <outname or the model's path>.with_suffix(suffix)", main.where())
+        elif _av.has_unk(target):
+            ctx.undecided(rule, key, f"{short}::main: where the result is written is not understood", main.where())
+        elif any(o[2] == on or o[3] == on or _has_term(o, on) for o in _av.find_all(target, "op")) or not _mentions_param(target, "outname"):
+            ctx.fail(rule, key, f"{short}::main writes to `{_av.show(target)[:110]}`: the output name given with -o is " + ("combined with another path" if _mentions_param(target, "outname") else "ignored") + ", not used as given", main.where())
+        else:
+            ctx.undecided(rule, key, f"{short}::main writes to `{_av.show(target)[:110]}`; whether that is the given output name is not decided", main.where())
+    if len(seen) == 2:
+        a, b = seen.values()
+        ctx.check(a == b, rule, "src/gotranx/cli::main::output-path-siblings", "gotran2py.main and gotran2c.main derive the output path in the same way", f"gotran2py.main writes to `{_av.show(a)[:80]}` but gotran2c.main to `{_av.show(b)[:80]}`: ode2py and ode2c treat the same -o option differently", "")
+
+
 def run(ctx: Ctx):
     sm = ctx.sm
     ctx.assume("exit codes as observed from a shell are not decided; typer's own argument validation (exists=True) is trusted")
@@ -322,6 +388,9 @@ def run(ctx: Ctx):
     # the per-scheme keyword arguments: delta and stiff_states are honoured for every scheme that takes them
     common.check_scheme_kwargs(ctx, "R18.a", "delta")
     common.check_scheme_kwargs(ctx, "R18.a", "stiff_states")
+
+    check_output_path(ctx, "R18.a")
+    check_validate_scheme(ctx, "R18.a")
 
     # ---- R18.b write after generate ------------------------------------------------------------------
     ctx.rule("R18.b", "in each main the output file is touched only after load_ode and get_code have returned, with get_code's text unmodified, and no handler swallows their exceptions", floor=8)
